@@ -39,6 +39,8 @@ CLAIMED = {
             "loading from a str path / Path versus the object is a runtime clause (json, pathlib) checked by the run only; from_rdflib is the prefix-map loader applied to namespaces()"),
     "C12": ("6 C12", "C12_transitive (TransitiveError iff a string is both key and value), per-record theorems C12_curie_same / C12_kept / C12_gain / C12_canonical / C12_clash_noop (+ C12_registered_means), C12_unknown, and for injective mappings C12_remap_uri_ok / C12_rewire_ok (the result is a consistent strict converter: the re-pointed records never clash, by injectivity and the clash test) and C12_idem (rewire twice = once, records equal); for all consistent strict converters and all mappings.",
             "the code works on a private copy of the input converter (value-level model); non-injective mappings are outside the quantifier (the strict constructor may then reject)"),
+    "C11": ("6 C11", "C11_main: for every consistent strict converter and every remapping dictionary, remap_curie_prefixes either raises one of the four documented errors or returns a consistent strict converter with the same number of records, the same multiset of (URI prefix, URI synonyms, pattern) and EVERY previously known CURIE prefix still known. Proved by a loop invariant over the main loop (C11_invariant: frame, strictness kept by every step, and 'known or waiting for the applicable pair that takes the name over'), the topological property of the layered ordering (C11_order_topological), its being a permutation (C11_order_perm), unreachability of KeyError via the duplicate-keys check and of fuel exhaustion; C11_applied / C11_skipped_* / C11_old_names_kept describe each pair.",
+            "the code works on a private copy of the input converter (value-level model); 'new prefix unused' is read sequentially (at the time the pair is applied)"),
 }
 NOT_YET = {}
 
